@@ -281,7 +281,10 @@ def open_split(a, param=2):
             r = a.arg_val(bi, 1)
             if r[0] == 'agg' and r[2].rsplit('::', 1)[0] in ('core::ops::RangeTo', 'core::ops::RangeFrom', 'core::ops::Range'):
                 f = dict(zip(r[4], r[3]))
-                idxs.append((bi, f.get('start'), f.get('end')))
+                end = f.get('end')
+                if end is not None and strip_site(end) == ('len', ('param', param)):
+                    end = None            # x[k..x.len()] is x[k..]
+                idxs.append((bi, f.get('start'), end))
             else:
                 idxs.append((bi, 'other', 'other'))
     if len(sps) == 1 and not idxs:
